@@ -187,7 +187,6 @@ func Limbs(t *rapid.T, label string) (*big.Int, string) {
 	return v, "limbs-" + cls
 }
 
-
 // Absent replaces b, in about one case in eight, by the empty string in one of its two Go shapes: nil or empty non-nil. The two
 // must be indistinguishable to a callee (both have length 0); a callee that gives nil a meaning of its own is caught because the
 // reference sees only the length.
